@@ -16,6 +16,18 @@ def programs(t):
                 # quotient() needs integer_digits+fractional_digits of both operands in one built-in rep (<= 127 digits)
                 quot = g.BITS[l] + g.BITS[r] <= 127 and abs(le) <= 40 and abs(re) <= 40
                 lines.append(('PQ(%s, %d, %s, %d)' if quot else 'P(%s, %d, %s, %d, 2)') % (l, le, r, re))
+    # every ordered pair of 8..64-bit reps at least once (result/quotient type rules depend on the pairing)
+    allreps = ['i8', 'u8', 'i16', 'u16', 'i32', 'u32', 'i64', 'u64']
+    have = set((l, r) for (l, r) in narrow + wide)
+    k = 0
+    for l in allreps:
+        for r in allreps:
+            if (l, r) in have:
+                continue
+            k += 1
+            for (le, re) in ([(-4, -2)] if not t else [(-4, -2), (3, -7), (0, 0)]):
+                quot = g.BITS[l] + g.BITS[r] <= 127
+                lines.append(('PQ(%s, %d, %s, %d)' if quot else 'P(%s, %d, %s, %d, 2)') % (l, le, r, re))
     for (l, r) in [('i8', 'i8'), ('i32', 'i32'), ('i64', 'i16')]:
         for le in (-3, -1, 0, 2):
             for re in (-2, 0, 1):
